@@ -11,6 +11,8 @@
 //
 // <prog>: string over {S,D,G}: S = submit next item, D = dequeue, G = get_status; afterwards the client drains (dequeue until
 // NULL) and destroys the pool.  <failmask>: bit i set = the worker callback fails (returns i+1) for item i.
+// <prog> "B:<spec>": block processor client (see below); there <failmask> bit k (k<8) poisons the first block of file k and
+// bit 8+k its last block / tail: the compressor handed to the block processor fails on a poisoned block.
 #include <pthread.h>
 #include <unistd.h>
 #include <sys/wait.h>
@@ -518,6 +520,53 @@ static unsigned long long fnv64(unsigned long long h, const void *p, size_t n)
 
 struct BFile { size_t size; char tag; unsigned flags; std::vector<unsigned char> data; sqfs_inode_generic_t *inode = nullptr; };
 
+// compressor that fails (like a compression library running out of memory in a worker) on blocks that start with POISON
+static const unsigned char POISON[8] = { 0xde, 0xad, 'F', 'A', 'I', 'L', 0x00, 0x01 };
+static int poison_delivered = 0;
+
+struct PoisonCmp {
+	sqfs_compressor_t base;
+	sqfs_compressor_t *inner;
+};
+
+static void pc_get_configuration(const sqfs_compressor_t *c, sqfs_compressor_config_t *cfg)
+{
+	const PoisonCmp *p = (const PoisonCmp *)c;
+	p->inner->get_configuration(p->inner, cfg);
+}
+static int pc_write_options(sqfs_compressor_t *c, sqfs_file_t *f) { PoisonCmp *p = (PoisonCmp *)c; return p->inner->write_options(p->inner, f); }
+static int pc_read_options(sqfs_compressor_t *c, sqfs_file_t *f) { PoisonCmp *p = (PoisonCmp *)c; return p->inner->read_options(p->inner, f); }
+static sqfs_s32 pc_do_block(sqfs_compressor_t *c, const sqfs_u8 *in, sqfs_u32 size, sqfs_u8 *out, sqfs_u32 outsize)
+{
+	PoisonCmp *p = (PoisonCmp *)c;
+	if (size >= sizeof(POISON) && memcmp(in, POISON, sizeof(POISON)) == 0) {
+		poison_delivered++;
+		return SQFS_ERROR_COMPRESSOR;
+	}
+	return p->inner->do_block(p->inner, in, size, out, outsize);
+}
+static void pc_destroy(sqfs_object_t *o) { PoisonCmp *p = (PoisonCmp *)o; sqfs_drop(p->inner); free(p); }
+static sqfs_object_t *pc_copy(const sqfs_object_t *o);
+static sqfs_compressor_t *pc_wrap(sqfs_compressor_t *inner)
+{
+	PoisonCmp *p = (PoisonCmp *)calloc(1, sizeof(*p));
+	sqfs_object_init(p, pc_destroy, pc_copy);
+	p->base.get_configuration = pc_get_configuration;
+	p->base.write_options = pc_write_options;
+	p->base.read_options = pc_read_options;
+	p->base.do_block = pc_do_block;
+	p->inner = inner;
+	return &p->base;
+}
+static sqfs_object_t *pc_copy(const sqfs_object_t *o)
+{
+	const PoisonCmp *p = (const PoisonCmp *)o;
+	sqfs_compressor_t *ic = (sqfs_compressor_t *)sqfs_copy(p->inner);
+	if (ic == nullptr)
+		return nullptr;
+	return (sqfs_object_t *)pc_wrap(ic);
+}
+
 static std::vector<unsigned char> gen_content(char tag, size_t size)
 {
 	std::vector<unsigned char> v(size, 0);
@@ -560,6 +609,16 @@ static int run_blockproc(int W, int N, const std::string &spec)
 		if (*endp && endp[1] == '!')
 			f.flags = (unsigned)strtoul(endp + 2, nullptr, 0) & SQFS_BLK_USER_SETTABLE_FLAGS;
 		f.data = gen_content(f.tag, f.size);
+		size_t k = files.size();
+		if (k < 8 && f.size >= sizeof(POISON)) {
+			if ((failmask >> k) & 1)
+				memcpy(f.data.data(), POISON, sizeof(POISON));
+			if ((failmask >> (8 + k)) & 1) {
+				size_t last = (f.size - 1) / B * B;
+				if (f.size - last >= sizeof(POISON))
+					memcpy(f.data.data() + last, POISON, sizeof(POISON));
+			}
+		}
 		files.push_back(f);
 	}
 	MemFile *mf = (MemFile *)calloc(1, sizeof(MemFile));
@@ -577,6 +636,8 @@ static int run_blockproc(int W, int N, const std::string &spec)
 	sqfs_compressor_config_init(&cfg, SQFS_COMP_GZIP, B, 0);
 	if (sqfs_compressor_create(&cfg, &cmp) != 0)
 		report_and_exit("error", "compressor");
+	if (failmask != 0)
+		cmp = pc_wrap(cmp);
 	sqfs_compressor_config_init(&cfg, SQFS_COMP_GZIP, B, SQFS_COMP_FLAG_UNCOMPRESS);
 	if (sqfs_compressor_create(&cfg, &uncmp) != 0)
 		report_and_exit("error", "uncompressor");
@@ -598,25 +659,48 @@ static int run_blockproc(int W, int N, const std::string &spec)
 	sqfs_block_processor_t *proc = nullptr;
 	if (sqfs_block_processor_create_ex(&desc, &proc) != 0)
 		report_and_exit("error", "block processor");
+	// with a poisoned block: a call may fail; then the submitter stops and destroys the processor.  What must not happen is
+	// that the compressor failed in a worker and every call reports success.
+	int first_err = 0;
+	const char *err_where = "";
 	for (auto &f : files) {
 		int r = sqfs_block_processor_begin_file(proc, &f.inode, nullptr, f.flags);
-		if (r)
+		if (r && failmask == 0)
 			inv_fail("begin_file failed: " + std::to_string(r));
+		if (r) { first_err = r; err_where = "begin_file"; break; }
 		// feed in two pieces so that append has to assemble blocks
 		size_t half = f.size / 3;
-		r = sqfs_block_processor_append(proc, f.data.data(), half);
+		r = half ? sqfs_block_processor_append(proc, f.data.data(), half) : 0;
 		if (!r)
 			r = sqfs_block_processor_append(proc, f.data.data() + half, f.size - half);
-		if (r)
+		if (r && failmask == 0)
 			inv_fail("append failed: " + std::to_string(r));
+		if (r) { first_err = r; err_where = "append"; break; }
 		r = sqfs_block_processor_end_file(proc);
-		if (r)
+		if (r && failmask == 0)
 			inv_fail("end_file failed: " + std::to_string(r));
+		if (r) { first_err = r; err_where = "end_file"; break; }
 	}
-	{
+	if (!first_err) {
 		int r = sqfs_block_processor_finish(proc);
-		if (r)
+		if (r && failmask == 0)
 			inv_fail("finish failed: " + std::to_string(r));
+		if (r) { first_err = r; err_where = "finish"; }
+	}
+	if (failmask != 0) {
+		if (first_err && !poison_delivered)
+			inv_fail(std::string(err_where) + " failed (" + std::to_string(first_err) + ") although no worker reported a failure");
+		if (!first_err && poison_delivered)
+			inv_fail("the compressor failed in a worker (" + std::to_string(poison_delivered) + "x) but begin_file/append/end_file/finish all returned 0: "
+				 "the failure status is not reported to the submitter");
+		if (first_err) {
+			sqfs_drop(proc);
+			for (auto *t : threads)
+				if (t->id != 0 && t->st != FINISHED)
+					inv_fail("block processor destroyed after a failure while a worker thread is still alive");
+			report_and_exit("ok", (std::string("failure-reported-by-") + err_where).c_str());
+		}
+		// the poisoned block never reached the compressor (e.g. stored as part of a later fragment block): ordinary run
 	}
 	// read every file back from the output
 	unsigned long long h = 1469598103934665603ULL;
@@ -705,7 +789,7 @@ static int run_blockproc(int W, int N, const std::string &spec)
 			inv_fail("block processor destroyed while a worker thread is still alive");
 	char msg[64];
 	snprintf(msg, sizeof(msg), "%llx", h);
-	if (have_expect && h != expect_digest)
+	if (have_expect && failmask == 0 && h != expect_digest)
 		inv_fail(std::string("output bytes / inodes depend on the schedule: digest ") + msg);
 	report_and_exit("ok", msg);
 	return 0;
@@ -744,7 +828,7 @@ static std::string run_forked(int W, int N, unsigned fm, const std::string &prog
 // the first execution of a block processor program defines the digest that all other schedules have to reproduce
 static void learn_digest(const std::string &prog, const std::string &out)
 {
-	if (have_expect || prog.compare(0, 2, "B:") != 0)
+	if (have_expect || failmask != 0 || prog.compare(0, 2, "B:") != 0)
 		return;
 	size_t p = out.find("\"result\": \"ok\", \"msg\": \"");
 	if (p == std::string::npos)
@@ -783,6 +867,7 @@ int main(int argc, char **argv)
 	int W = atoi(argv[2]), N = atoi(argv[3]);
 	unsigned fm = (unsigned)strtoul(argv[4], nullptr, 0);
 	std::string prog = argv[5];
+	failmask = fm;
 	if (mode == "run") {
 		preempt_bound = atoi(argv[6]);
 		for (int i = 7; i < argc; ++i)
